@@ -20,4 +20,19 @@ CHECKS = {
         'trusted_base': [KERNEL, AX, TIE, 'model Pangaea/Eval/Index.lean is a hand transcription of evaluator/index.go (arrIndex, strIndex, fixRange, valRange, strRange)'],
         'assumptions': ['sequence length < 2^62', 'bounds are int64 values or omitted', 'string slicing observed by code point; invalid UTF-8 not generated'],
     },
+    'C10': {
+        'lean_modules': ['Pangaea.Theorems.C10'],
+        'theorem_modules': ['Pangaea.Theorems.C10'],
+        'theorems': ['Pangaea.C10.add_exact', 'Pangaea.C10.sub_exact', 'Pangaea.C10.mul_exact', 'Pangaea.C10.neg_exact',
+                     'Pangaea.C10.tdiv_fits', 'Pangaea.C10.floorDiv_exact', 'Pangaea.C10.mod_spec', 'Pangaea.C10.zero_divisor',
+                     'Pangaea.C10.div_is_float_quotient', 'Pangaea.C10.cmp_spec', 'Pangaea.C10.pow_exact'],
+        'harness': ['C10'],
+        'spec_is_function': True,
+        'exhaustive': True,
+        'rule': 'exhaustive [-24,24]^2 (40 thorough) for + - * ** / // % <=> and unary -, nil right operand, boundary lattice (0, +-1, 2^31, 2^53+-1, sqrt(2^63), 2^62, int64 extremes)^2, '
+                'powers base in [-12,12] exp 0..70, random pairs biased to opposite signs / large magnitudes; built-in closures called directly and a sample through parsed source. '
+                'non-trivial = both operands non-zero; distinct by (case line, source text); spec "-" = result does not fit int64 (unconstrained)',
+        'trusted_base': [KERNEL, AX, TIE, 'model Pangaea/Props/IntArith.lean is a hand transcription of props/int_props.go operators', 'math/big Exp is exact; float64 division and int->float conversion are not modelled in proofs (Lean Float used only in the executable driver)'],
+        'assumptions': ['operands are int64', 'results that do not fit 64 bits are outside the property', '`/` compared bit-for-bit with IEEE double division of the converted operands'],
+    },
 }
